@@ -229,6 +229,17 @@ func (w *When) Eval(args ...interface{}) []interface{} {
 	if err != nil {
 		panic("Call Eval(...) error: " + err.Error())
 	}
+	if isVariadic {
+		// 与真实调用保持一致: 可变参数打包成最后一个 slice 参数
+		fixed := len(argsTypes) - 1
+		variadic := reflect.MakeSlice(argsTypes[fixed], 0, len(argVs)-fixed)
+		variadic = reflect.Append(variadic, argVs[fixed:]...)
+		argVs = append(argVs[:fixed:fixed], variadic)
+	}
+	if w.isMethod {
+		// 与真实调用保持一致: 方法的第一个参数是 receiver, Matcher 会忽略它
+		argVs = append([]reflect.Value{reflect.Zero(w.funcTyp.In(0))}, argVs...)
+	}
 	resultVs := w.invoke(argVs)
 	return arg.V2I(resultVs, outTypes(w.funcTyp))
 }
